@@ -1783,13 +1783,14 @@ impl<'a, 'b> AuthorizedAccess<'a, 'b> {
             self.can_write_actuator_target(&vss_id).await?;
         }
 
+        // Check for an existing provider and register the new one under one write lock:
+        // two concurrent claims of the same actuator must not both pass the check.
         #[cfg(feature = "verif-hooks")]
-        crate::verif::yield_point(9, "sec Subs R").await;
-        let provided_vss_ids: Vec<i32> = self
-            .broker
-            .subscriptions
-            .read()
-            .await
+        crate::verif::yield_point(10, "req Subs W").await;
+        let mut subscriptions = self.broker.subscriptions.write().await;
+        #[cfg(feature = "verif-hooks")]
+        let _verif_subs = crate::verif::held(10, "acq Subs W", "rel Subs");
+        let provided_vss_ids: Vec<i32> = subscriptions
             .actuation_subscriptions
             .iter()
             .flat_map(|subscription| subscription.vss_ids.clone())
@@ -1811,13 +1812,7 @@ impl<'a, 'b> AuthorizedAccess<'a, 'b> {
             actuation_provider,
             permissions: self.permissions.clone(),
         };
-        #[cfg(feature = "verif-hooks")]
-        crate::verif::yield_point(10, "sec Subs W").await;
-        self.broker
-            .subscriptions
-            .write()
-            .await
-            .add_actuation_subscription(actuation_subscription);
+        subscriptions.add_actuation_subscription(actuation_subscription);
 
         Ok(())
     }
